@@ -109,7 +109,7 @@ def write_family(path, progs):
         json.dump([{"prog": p} for p in progs], f, separators=(",", ":"))
 
 
-def model_check(progs, scratch, cfg="Sched.cfg", workers=None, timeout=1800, coverage=False, chunk=None):
+def model_check(progs, scratch, cfg="Sched.cfg", workers=None, timeout=1800, coverage=False, chunk=None, clauses=""):
     """TLC on Sched.tla over a family (program x all tie-break schedules).  Returns a dict with
     states, transitions(generated), ok, violated invariants, and the list of exported behaviours
     [{"beh": pid (1-based index into progs), "sched": [kind per flush round]}]."""
@@ -117,11 +117,18 @@ def model_check(progs, scratch, cfg="Sched.cfg", workers=None, timeout=1800, cov
     d = scratch.mkdir("family")
     chunk = chunk or len(progs)
     res_all = {"states": 0, "generated": 0, "ok": True, "violated": [], "behaviours": [], "out": "", "depth": 0, "coverage": {}}
+    from common import Findings
+    known = sorted({c for (p_, c, t_, x_) in Findings().entries if c and c.startswith(clauses or "")})
+    kpath = ""
+    if known:
+        kpath = os.path.join(d, "known-%d.json" % os.getpid())
+        with open(kpath, "w") as f:
+            json.dump(known, f)
     for off in range(0, len(progs), chunk):
         part = progs[off:off + chunk]
         path = os.path.join(d, "fam-%d-%d.json" % (os.getpid(), off))
         write_family(path, part)
-        res = run_tlc("Sched", cfg, scratch, env={"PROGS": path}, workers=workers, timeout=timeout, coverage=coverage)
+        res = run_tlc("Sched", cfg, scratch, env={"PROGS": path, "CLAUSES": clauses, "KNOWNFILE": kpath}, workers=workers, timeout=timeout, coverage=coverage)
         os.unlink(path)
         if res.timed_out:
             raise MachineryError("Sched model checking timed out after %ss" % timeout)
